@@ -13,6 +13,11 @@ import traceback
 
 sys.path.insert(0, os.path.dirname(os.path.abspath(__file__)))
 sys.setrecursionlimit(20000)
+for _st in (sys.stdout, sys.stderr):
+    try:
+        _st.reconfigure(errors="backslashreplace")  # lone surrogates in reports must not crash the check
+    except Exception:
+        pass
 
 import lib  # noqa: E402
 
